@@ -18,7 +18,8 @@ pub uninterp spec fn w_adjust_foreign_attributes(t: Tag) -> Tag;
 impl TreeBuilder {
     #[verifier::external_body]
     pub fn step(&mut self, mode: InsertionMode, token: Token) -> (r: ProcessResult)
-        ensures (*final(self), r) == w_step(*old(self), mode, token),
+        // (small(): ASSUMED machine fact - a Vec has fewer than usize::MAX entries)
+        ensures (*final(self), r) == w_step(*old(self), mode, token), final(self).small(),
     { unimplemented!() }
     /// adjusted_current_node (ASSUMED glue over Ref::filter_map): the context element if the stack has one entry and there is
     /// one, else the current node
